@@ -138,7 +138,7 @@ fn traverse<'gc, P: Probe>(root: &PRoot<'gc, P>, addr2id: &BTreeMap<usize, Id>, 
 }
 
 pub fn run_plan<P: Probe>(plan: &ProbePlan) -> ProbeOutcome {
-    seam::begin_run(true);
+    seam::begin_run(true, false);
     tok::begin_run();
     tok::set_quiet(true);
     let _p = seam::pause();
